@@ -972,7 +972,45 @@ class Recon:
             a, b = base[2]
             first, second = (a, b) if base[1] == "or" else (b, a)
             return ("ite", a, self.attr(first, name, ctx, depth + 1), self.attr(second, name, ctx, depth + 1))
+        if k == "call" and "::" in base[1] and depth < MAX_DEPTH:
+            # the result of a factory of the package (`DiskDescriptor.parse(..)` returns `cls(..)`): a *property* of that class read on
+            # it is the property's body (its own attributes stay the class-level terms, as everywhere for typed receivers)
+            kls = self._returned_class(base[1])
+            if kls is not None:
+                ci = self._class_by_key(kls)
+                for c in (self.prog.mro(ci) if ci is not None else ()):
+                    if name in c.methods:
+                        if c.is_property(name):
+                            return self.inline(c.methods[name], [("self", kls)], {}, depth + 1, force=True)
+                        break
         return ("attr", base, name)
+
+    def _returned_class(self, funckey):
+        """Class key every return of a function of the package constructs (`return cls(..)` in a classmethod, `return K(..)`)."""
+        cache = self.__dict__.setdefault("_ret_class", {})
+        if funckey in cache:
+            return cache[funckey]
+        cache[funckey] = None
+        fdef = self._func_by_key(funckey)
+        if fdef is None:
+            return None
+        fctx = self.ctx_of(fdef)
+        rets = [n for n in _own_nodes(fdef) if isinstance(n, ast.Return)]
+        ks = set()
+        for r in rets:
+            v = r.value
+            if isinstance(v, ast.Call) and isinstance(v.func, ast.Name):
+                if v.func.id == "cls" and fctx.is_classmethod and fctx.ci is not None:
+                    ks.add(fctx.ci.key)
+                    continue
+                res = self.prog.resolve_name(v.func.id, fctx.mi)
+                if res and res[0] == "class":
+                    ks.add(res[1].key)
+                    continue
+            ks.add(None)
+        if len(ks) == 1 and None not in ks:
+            cache[funckey] = ks.pop()
+        return cache[funckey]
 
     def _class_by_key(self, key: str) -> ClassInfo | None:
         rel, _, cname = key.partition("::")
